@@ -1187,7 +1187,9 @@ func c04Step(id string, a c04Authn) config.MechanismConfig {
 	return step
 }
 
-// the field of the rule object that holds the authenticators, whatever it is called
+// the field of the rule object that holds the authenticators, whatever it is called: of the
+// fields of type compositeSubjectCreator the one whose first element is the mechanism "a0"
+// (or "d0" ...), else the first non-empty one
 func c04Composite(r rule.Rule) (reflect.Value, bool) {
 	v := reflect.ValueOf(r)
 	if v.Kind() != reflect.Pointer || v.Elem().Kind() != reflect.Struct {
@@ -1196,9 +1198,23 @@ func c04Composite(r rule.Rule) (reflect.Value, bool) {
 
 	want := reflect.TypeOf(compositeSubjectCreator(nil))
 
+	var cands []reflect.Value
+
 	for i := 0; i < v.Elem().NumField(); i++ {
 		if f := v.Elem().Field(i); f.Type() == want {
-			return reflect.NewAt(f.Type(), unsafe.Pointer(f.UnsafeAddr())).Elem(), true
+			cands = append(cands, reflect.NewAt(f.Type(), unsafe.Pointer(f.UnsafeAddr())).Elem())
+		}
+	}
+
+	for _, c := range cands {
+		if sc := c.Interface().(compositeSubjectCreator); len(sc) != 0 && c04Pos(sc[0]) == 0 { //nolint:forcetypeassert
+			return c, true
+		}
+	}
+
+	for _, c := range cands {
+		if c.Len() != 0 {
+			return c, true
 		}
 	}
 
